@@ -1292,11 +1292,11 @@ func (x *run) partialFetch(rs *repState, remote string, preTrack map[string]stri
 // replica's own identities are touched (diverged identities never converge by design).
 func (x *run) stepIdentMut(rs *repState, s *sim.Step) error {
 	var pool []entity.Id
-	if x.on("C09") || (x.on("C02") && s.N%4 == 0 && x.faults) {
+	if x.on("C09") || (x.on("C02") && s.N%2 == 0) {
 		// any identity the replica knows, also somebody else's: two replicas mutating one identity
 		// make it diverge, and a pull then meets a refused identity among others that must still merge.
-		// (C02: in fault runs only. Fault-free runs use the one-call Pull API, which returns at the first
-		// refused entity and abandons its merge goroutines; they would go on reading the repository
+		// (Which is why C02 and C09 runs never use the one-call Pull API: it returns at the first
+		// refused entity and abandons its merge goroutines, which would go on reading the repository
 		// under the next step — seen as go-git's "concurrent map writes" in the sweep of seed 4.)
 		pool = x.knownIdents(rs)
 	} else {
